@@ -33,6 +33,8 @@ type stepAnalysis struct {
 	ref       *engine.RefSummary
 	rows      []stepRow
 	emptyRows []stepRow
+	im0Sites  []map[ssa.Instruction]*absint.SiteLog
+	im0Funcs  []string
 	err       error
 	im0       []im0Case
 	implE     []string
@@ -124,6 +126,8 @@ func analyseStep(cx *Ctx) *stepAnalysis {
 			care = cc.Ult(cc.Atom("Init("+isa.LocPC+")", 16), cc.Const(16, uint64(0x10000-(len(data)-1))))
 		}
 		impl := cx.E.RunStepImpl(cc, engine.StepMode{IM0Data: data, HavocInterrupt: true, Assume: care, HasAssume: care != bdd.True})
+		sa.im0Sites = append(sa.im0Sites, impl.Sites)
+		sa.im0Funcs = append(sa.im0Funcs, impl.Funcs...)
 		if impl.Err != nil {
 			ic.und = impl.Err
 		} else {
